@@ -298,6 +298,7 @@ def run(ctx):
     # R2.17: a reference leaves its scope when its errors have been taken: nothing keeps a half-consumed error iterator alive (C02-r6m1)
     from .c07 import rule_no_held_iterator
     rule_no_held_iterator(ctx, "R2.17")
+    scope.rule_scope_in_force(ctx, "R2.18")
     # R2.14: what a URI designates is what the store holds for it: outside the constructor the store is written in one place, under
     # the URL a document was retrieved for -- never under an id the retrieved document claims for itself (that would replace the
     # referrer or a caller-supplied document)
